@@ -367,11 +367,22 @@ class Pools(object):
   max_tables = None
   max_cols = None
 
+  meta_fields = ["colId", "type", "label", "isFormula", "formula", "recalcWhen", "untie"]
+
   def __init__(self, size="full", kinds=None):
+    # "<size>-nf": no data<->formula switches (used where the property does not quantify over them)
+    nf = size.endswith("-nf")
+    size = size[:-3] if nf else size
     p = {"full": self.FULL, "small": self.SMALL, "med": self.MED, "tiny": self.TINY, "micro": self.MICRO}[size]
     self.__dict__.update(p)
     self.size = size
     self.kinds = kinds or ALL_KINDS
+    if nf:
+      self.meta_fields = [f for f in self.meta_fields if f not in ("isFormula", "formula")]
+      if kinds is None:
+        self.kinds = [k for k in ALL_KINDS if k != "ModifyFormula"]
+      elif kinds == ["ModifyFormula"]:
+        self.kinds = ["ModifyType"]
 
 
 RECORD_KINDS = ["UpdateRecord", "BulkUpdateRecord", "AddRecord", "BulkAddRecord", "RemoveRecord",
@@ -497,7 +508,7 @@ def gen_action(h, d, pfx, pools):
     return ["AddReverseColumn", t, c]
   if kind == "MetaCol":
     ref = d.colref(t, c)
-    field = h.choice(pfx + "field", ["colId", "type", "label", "isFormula", "formula", "recalcWhen", "untie"])
+    field = h.choice(pfx + "field", pools.meta_fields)
     if field == "colId":
       return ["UpdateRecord", "_grist_Tables_column", ref, {"colId": h.choice(pfx + "name", pools.names)}]
     if field == "type":
@@ -893,6 +904,15 @@ def check_twoway(e):
   return None
 
 
+def _h(x):
+  """hashable form of an encoded value"""
+  if isinstance(x, (list, tuple)):
+    return tuple(_h(y) for y in x)
+  if isinstance(x, dict):
+    return tuple(sorted((k, _h(v)) for k, v in x.items()))
+  return x
+
+
 def check_summaries(e):
   """C12: every summary table is the exact group-by of its source"""
   tt = e.fetch_table("_grist_Tables")
@@ -934,14 +954,21 @@ def check_summaries(e):
           else:
             ok = False
         else:
+          if isinstance(co, colmod.DateColumn) and not isinstance(co, colmod.DateTimeColumn) and isinstance(v, (int, float)) \
+             and not isinstance(v, bool) and v == v and abs(v) < 1e15:
+            v = ("day", int(v // 86400))          # Date cells group by calendar day, whatever the stored seconds
           parts.append([int(v) if hasattr(v, "_row_id") else v])
       if not ok:
         continue
       for key in itertools.product(*parts):
-        expected.setdefault(tuple(enc(k) if not isinstance(k, (int, str, type(None), float)) else k for k in key), []).append(rid)
+        expected.setdefault(tuple(_h(enc(k)) if not isinstance(k, (int, str, type(None), float, tuple)) else _h(k) for k in key), []).append(rid)
     got = {}
     for i, rid in enumerate(sm.row_ids):
       key = tuple(enc(sm.columns[c][i]) for c in gcols)
+      key = tuple((["day", int(k // 86400)] if (isinstance(srccols[c], colmod.DateColumn) and not isinstance(srccols[c], colmod.DateTimeColumn)
+                                                 and isinstance(k, (int, float)) and not isinstance(k, bool) and k == k and abs(k) < 1e15) else k)
+                  for k, c in zip(key, gcols))
+      key = tuple(_h(k) for k in key)
       try:
         if key in got:
           return "%s has two rows with key %s" % (tname, key)
@@ -950,7 +977,7 @@ def check_summaries(e):
       grp = sm.columns["group"][i]
       got[key] = list(grp._row_ids if hasattr(grp, "_row_ids") else (_ids_of(grp)))
     try:
-      exp = {tuple(enc(x) for x in k): v for k, v in expected.items()}
+      exp = {tuple(_h(x) for x in k): v for k, v in expected.items()}
     except TypeError:
       continue
     if exp != got:
